@@ -136,6 +136,11 @@ func (b *BFT) CheckProposerMessage(x *Message, p *validateMessageParams) (isPart
 		return false, lib.ErrInvalidQCCommitteeHeight()
 	}
 	if x.Header.Phase == Propose {
+		// the justification must be the +2/3 ELECTION-VOTE certificate of THIS round: an election certificate of an
+		// earlier round replayed under a new header would let a once-elected validator act as the proposer of every round
+		if x.Qc.Header.Phase != ElectionVote || x.Qc.Header.Round != x.Header.Round || x.Qc.Header.Height != x.Header.Height {
+			return false, lib.ErrWrongPhase()
+		}
 		// ensure the sender is justified as the proposer
 		if !bytes.Equal(x.Qc.ProposerKey, x.Signature.PublicKey) {
 			return false, lib.ErrInvalidSigner()
